@@ -19,6 +19,8 @@ import r_ladder
 import r_repstate
 import r_shape
 import r_family
+import r_chain
+import r_decodelen
 import r_slotmod
 import r_modeflag
 import r_sendrecv
@@ -684,6 +686,7 @@ def c20(facts, tier):
     n = r_encbound.run_inverse(facts, rep, strict)
     rep.floor("R-INDEXPAIR(inv)", "encode_outputs/decode pairs", n, 4)
     r_convidx.run(facts, rep, floor=2)
+    r_decodelen.run(facts, rep, floor=3)
     return rep
 
 
@@ -763,6 +766,7 @@ def c13(facts, tier):
     r_ladder.run_chain(facts, rep)
     r_ladder.run_ident(facts, rep)
     r_ladder.run_hashin(facts, rep)
+    r_chain.run(facts, rep)
     n_loops, _ = r_loop.run(facts, rep, scope_files={"src/context.rs", "src/modulus.rs", "src/encryption_parameters.rs"},
                             level_walk=False)
     return rep
